@@ -130,6 +130,9 @@ func (m *runtimeContextManager) PushContext(ctx RuntimeContextDef) {
 	m.parent = &parent
 	if ctx.GCPolicy == IsolateGCPolicy || ctx.HardLimits.Millis > 0 || ctx.HardLimits.Cpu > 0 || ctx.HardLimits.Memory > 0 {
 		m.weakRefPool = luagc.NewDefaultPool()
+		if cp, ok := m.weakRefPool.(interface{ SetParent(luagc.Pool) }); ok {
+			cp.SetParent(parent.weakRefPool)
+		}
 		m.gcPolicy = IsolateGCPolicy
 	} else {
 		m.weakRefPool = parent.weakRefPool
